@@ -142,6 +142,9 @@ def _run(tape, out, elfi, root):
                  all(p in stores for p in spec['params']), control)]
     held_max = 0          # number of batches the pool should hold (0..held_max-1)
     held = {}             # per store: batches it should hold (only runs whose net contains it)
+    saved_held = [None]   # what the pool's pickles say (state at the last save()/close())
+    saved_max = [0]
+    abandoned = []        # handles of 'processes' that ended without close()
     reused = False
     nsteps = tape.int('n_steps', 2, 5)
     out.sample = {'spec': sp.describe_spec(spec), 'stores': list(stores),
@@ -182,11 +185,13 @@ def _run(tape, out, elfi, root):
             op = 'run'
         else:
             op = tape.choice('op', ['run', 'rerun_same', 'rerun_larger', 'rerun_smaller',
-                                    'remove_store', 'replace_node', 'reopen', 'run'])
+                                    'remove_store', 'replace_node', 'reopen', 'run'] +
+                             (['reopen', 'rerun_larger'] if on_disk else []))
         if op == 'remove_store':
             if len(cur_stores) <= 1:
                 continue
             victim = tape.choice('victim', cur_stores)
+            saved_held[0] = None      # the pickles on disk still list the removed store
             st = pool.remove_store(victim)
             if hasattr(st, 'close'):
                 st.close()
@@ -200,6 +205,7 @@ def _run(tape, out, elfi, root):
             cands = [n for n in cur_spec['sums']] + [cur_spec['disc']]
             target = tape.choice('replace', cands)
             dead = {target} | descendants(cur_spec, target)
+            saved_held[0] = None
             for s in list(pool.stores):
                 if s in dead:
                     st = pool.remove_store(s)
@@ -237,11 +243,30 @@ def _run(tape, out, elfi, root):
                 continue
             before = {s: len(pool.stores[s]) if pool.stores[s] is not None else 0
                       for s in pool.stores}
-            how = tape.choice('reopen_how', ['close_open', 'flush', 'save'])
+            how = tape.choice('reopen_how', ['close_open', 'flush', 'save', 'abandon_open', 'save',
+                                             'abandon_open'])
+            if how == 'abandon_open' and saved_held[0] is None:
+                how = 'save'
             if how == 'flush':
                 pool.flush()
             elif how == 'save':
                 pool.save()
+                saved_held[0] = dict(held)
+                saved_max[0] = held_max
+            elif how == 'abandon_open':
+                # the process ends without close(): data is durable (flush), but the pool's
+                # pickles still say what the last save() said; a new process opens the pool
+                pool.flush()
+                abandoned.append(pool)
+                pool = elfi.ArrayPool.open(pool_name, prefix=root)
+                held = {s_: saved_held[0].get(s_, 0) for s_ in pool.stores}
+                held_max = saved_max[0]
+                after = {s_: len(pool.stores[s_]) if pool.stores[s_] is not None else 0
+                         for s_ in pool.stores}
+                if after != held:
+                    out.violate('reopen-equal', 'abandoned', saved=held, after=after)
+                    return
+                out.probes['pool_abandon_open'] += 1
             else:
                 pool.close()
                 pool = elfi.ArrayPool.open(pool_name, prefix=root)
@@ -251,6 +276,8 @@ def _run(tape, out, elfi, root):
                     out.violate('reopen-equal', '', before=before, after=after)
                     return
                 out.probes['pool_close_open'] += 1
+                saved_held[0] = dict(held)
+                saved_max[0] = held_max
             out.ev('P %s' % how)
             out.sample['history'].append(how)
             abstract.append((how,))
